@@ -10,7 +10,7 @@ BUDGET = {'quick': 2500, 'thorough': 30000}
 TIME_LIMIT = {'quick': 55, 'thorough': 800}
 RULE = ('one result of every kind with a built-in representation (equal, approx-equal, Student, chi-square, Bonferroni, '
         'Holm-Bonferroni, metadata, statistics of tasks / tests / tests by labels, failed evaluation), datasets of shape () '
-        'to 3-d with random failing-bin patterns, bins sometimes open-ended (first / last bin 1e30 wide), compared datasets sometimes sharing a name, then a random sequence of 1-12 read-only operations: bool, oracles, len / '
+        'to 3-d with random failing-bin patterns, bins sometimes open-ended (first / last bin 1e30 wide), compared datasets sometimes sharing a name, arrays sometimes in the non-native byte order, then a random sequence of 1-12 read-only operations: bool, oracles, len / '
         'get / index / contains on the classification, classification_counts, table / plot / full representation at every '
         'verbosity, Rst.format_result, fingerprint, data(), pickle.dumps, copy.deepcopy, repr; a deep bit-for-bit snapshot '
         '(array bytes, dtypes, shapes, dictionary keys in order) of the result, its test and its datasets is taken '
@@ -66,6 +66,9 @@ def gen(rng, tier, run):
         case['wide'] = rng.choice([None, None, None, 'last', 'first', 'both'])
         case['same_names'] = rng.random() < 0.3
         case['alpha'] = rng.choice([0.01, 0.05, 0.2])
+        # arrays stored in the other byte order (as read from a file written on another machine)
+        if rng.random() < 0.15:
+            case['byteorder'] = 'swapped'
     case['ops'] = [{'op': rng.choice(OPS), 'verb': rng.randrange(0, 6), 'key': rng.randrange(0, 6),
                     'rep': rng.choice(['table', 'plot', 'full', 'fulltable', 'fullplot'])} for _ in range(rng.randrange(1, 13))]
     return case
@@ -140,15 +143,20 @@ def build(case):
         return TestMetadata({f'd{i}': md for i, md in enumerate(case['md'])}, name='md'), fps
     shape = case['shape']
 
+    import sys
+    flt = np.dtype(float)
+    if case.get('byteorder') == 'swapped':
+        flt = np.dtype('>f8' if sys.byteorder == 'little' else '<f8')
+
     def mkds(vals, name):
-        bins = OrderedDict((f'b{ax}', np.arange(n + 1, dtype=float)) for ax, n in enumerate(shape))
+        bins = OrderedDict((f'b{ax}', np.arange(n + 1, dtype=float).astype(flt)) for ax, n in enumerate(shape))
         for edges in bins.values():
             if case.get('wide') in ('last', 'both'):
                 edges[-1] = 1e30
             if case.get('wide') in ('first', 'both') and len(edges) > 2:
                 edges[0] = -1e30
         if shape:
-            return Dataset(np.array(vals, dtype=float).reshape(shape), np.array(case['err'], dtype=float).reshape(shape),
+            return Dataset(np.array(vals, dtype=flt).reshape(shape), np.array(case['err'], dtype=flt).reshape(shape),
                            bins=bins, name=name)
         return Dataset(np.float64(vals[0]), np.float64(case['err'][0]), name=name)
     ref = mkds(case['ref'], 'ref')
